@@ -77,6 +77,8 @@ class _Scope(Contract):
             return self.disp_exit
         if q == "StateContext.updated":
             return self.state_updated
+        if q == "MetricsContext.scope" and getattr(self, "_mc_prebuilt", None) is not None:
+            return lambda it2, fv2, ca, node: self._mc_prebuilt
         if q in ("ScopeMetrics._finish", "ScopeMetrics.log"):
             return self.metrics_never_raises
         if q == "ScopeMetrics.time":
@@ -97,7 +99,9 @@ class _Scope(Contract):
         o = st.alloc(info.cid)
         st.put(o, "_state", st.fresh_val("scope_state"))
         st.put(o, "_token", V.VNone)
-        st.events.append(("state-updated", ca.pos[0] if ca.pos else None))
+        # StateContext.updated derives the new state from the state current *at the call*: remember which one that was
+        var = self.cvs(it)["StateContext"]
+        st.events.append(("state-updated", ca.pos[0] if ca.pos else None, cv_snapshot(it, var)))
         return o
 
     def disp_enter(self, it, fv, ca, node):
@@ -152,13 +156,25 @@ class _Scope(Contract):
                 return it.engine.default_await(it, aw, idx, node)
             except PyRaise as pr:
                 lab = st.labels[-1]
-                foreign_cancel = lab.endswith("cancelled-while-waiting")
+                foreign_cancel = lab.endswith("cancelled-while-waiting") or lab.endswith("cancelled-while-waiting+member-failed")
                 self.raised.append(("taskgroup-exit", pr.val, foreign_cancel))
                 raise
         return NotImplemented
 
     def cancel_during_taskgroup_exit(self, it) -> bool:
         return True
+
+    def current_task(self, it):
+        """The task running the block: an object with a counter of pending cancellation requests."""
+        st = it.st
+        t = st.ghost.get("$scope_task")
+        if t is None:
+            t = st.sym_ref("running_task", "Task")
+            n = st.fresh("cancelling0", I)
+            st.assume(n >= 0)
+            st.put(t, "$cancelling", V.VInt(n))
+            st.ghost["$scope_task"] = t
+        return t
 
     # ---------------------------------------------------------------------------------- objects
     def build(self, it):
@@ -170,26 +186,31 @@ class _Scope(Contract):
         sm_info = repo_class(it, "context/metrics.py", "ScopeMetrics")
         d_info = repo_class(it, "context/disposables.py", "Disposables")
         self.cv = self.cvs(it)
-        self.snap0 = {k: cv_snapshot(it, v) for k, v in self.cv.items()}
-        obj = st.alloc(self.sinfo.cid)
-        self.obj = obj
-        self.tgc = it.instantiate(tg_info.cid, CallArgs())
-        st.put(obj, "_task_group_context", self.tgc)
+        # --- creation: the real ScopeContext.__init__ runs in whatever context `ctx.scope(...)` was called in
         mc = st.alloc(m_info.cid)
         metrics = st.sym_ref("scope_metrics", sm_info.cid)
         st.put(metrics, "_finished", it.mk_bool(False))
         st.put(mc, "_metrics", metrics)
         st.put(mc, "_token", V.VNone)
-        st.put(obj, "_metrics_context", mc)
-        self.mc = mc
-        st.put(obj, "_state", sym_tuple(it, "state"))
+        self.mc = self._mc_prebuilt = mc
+        state = sym_tuple(it, "state")
         if self.is_async and st.fork("disposables", [("none", True), ("some", True)]) == 1:
             d = st.sym_ref("disposables", d_info.cid)
-            st.put(obj, "_disposables", d)
             self.disp = d
         else:
-            st.put(obj, "_disposables", V.VNone)
+            d = V.VNone
             self.disp = None
+        obj = it.instantiate(self.sinfo.cid, CallArgs(kw=dict(
+            trace_id=st.fresh_val("trace_id"), name=V.VStr(st.fresh("name", I)), logger=st.fresh_val("logger"),
+            state=state, disposables=d, completion=st.fresh_val("completion"))))
+        self.obj = obj
+        self.tgc = st.get(obj, "_task_group_context")
+        # --- a scope object may be entered somewhere else than where it was created (prepared scopes, ctx.stream):
+        # the three variables hold arbitrary other values when the block is entered
+        for k, var in self.cv.items():
+            st.put(var, "$cvset", V.VBool(st.fresh(f"entry_{k}_set", z3.BoolSort())))
+            st.put(var, "$cvval", st.fresh_val(f"entry_{k}"))
+        self.snap0 = {k: cv_snapshot(it, v) for k, v in self.cv.items()}
 
     def the_group(self, it):
         """The asyncio TaskGroup created for this scope (whatever object keeps it)."""
@@ -232,6 +253,11 @@ class _Scope(Contract):
                         L.cv_value(it, self.cv["MetricsContext"]) == st.get(self.mc, "_metrics"),
                         L.cv_value(it, self.cv["StateContext"]) == st.get(st.get(self.obj, "_state_context"), "_state")))
         ev = [e for e in st.events if e[0] == "state-updated"]
+        if len(ev) == 1:
+            s_set, s_val = ev[0][2]
+            e_set, e_val = self.snap0["StateContext"]
+            st.check("C01-P6:the-scope-state-extends-the-state-current-where-the-block-is-entered(not-where-the-scope-object-was-made)",
+                     z3.And(s_set == e_set, z3.Implies(e_set, s_val == e_val)))
         if self.disp is not None:
             st.check("C08-P5:state-yielded-by-disposables-becomes-scope-state", z3.BoolVal(len(ev) == 1))
         if len(ev) == 1 and ev[0][1] is not None:
@@ -467,7 +493,7 @@ class TaskGroupExit(_Scope):
 
 def variant(base, prop: str, prefixes: tuple):
     return type(prop + base.__name__, (base,), dict(
-        name=base.name.replace("C02/", prop + "/"), props=(prop,),
+        name=prop + "/" + base.name.split("/", 1)[1], props=(prop,),
         keep=staticmethod(lambda n, p=prefixes: n.startswith(p) or n == "canary")))()
 
 
